@@ -147,9 +147,9 @@ theorem handleKill_sweep (s : Sys) (jo : JobObj) (rj : Job) (tasks : List Task) 
 
 /-! ### `handlePendingTasks` -/
 
-theorem pendFold_gen (key : String) (pt : Int) : ∀ (tasks : List Task) (s : Sys) (acc : List Task),
+theorem pendFold_gen (key : String) (pt : Int) (g : Task → TaskRef) : ∀ (tasks : List Task) (s : Sys) (acc : List Task),
     ∃ s' nd, tasks.foldl (fun (acc : Sys × List Task) (t : Task) =>
-        let ref := t.ref
+        let ref := g t
         if ref.finishTimestamp.isSome then acc
         else if ref.runningTimestamp.isSome then acc
         else
@@ -157,36 +157,36 @@ theorem pendFold_gen (key : String) (pt : Int) : ∀ (tasks : List Task) (s : Sy
           if deadline > acc.1.clock then (enqueueAfter acc.1 key deadline, acc.2)
           else if t.deletionTimestamp.isSome then acc
           else (acc.1, acc.2 ++ [t])) (s, acc) = (s', acc ++ nd) ∧ TimersOnly key s s' ∧
-      (∀ t ∈ nd, t ∈ tasks ∧ t.ref.finishTimestamp.isSome = false) ∧
-      ((∀ t ∈ tasks, t.ref.finishTimestamp.isSome = true) → s' = s ∧ nd = [])
+      (∀ t ∈ nd, t ∈ tasks ∧ (g t).finishTimestamp.isSome = false) ∧
+      ((∀ t ∈ tasks, (g t).finishTimestamp.isSome = true) → s' = s ∧ nd = [])
   | [], s, acc => ⟨s, [], by simp, TimersOnly.refl key s, (fun t h => by cases h), fun _ => ⟨rfl, rfl⟩⟩
   | t :: rest, s, acc => by
     simp only [List.foldl_cons]
-    by_cases h1 : t.ref.finishTimestamp.isSome = true
+    by_cases h1 : (g t).finishTimestamp.isSome = true
     · simp only [h1, ↓reduceIte]
-      obtain ⟨s', nd, e, hto, hnd, hex⟩ := pendFold_gen key pt rest s acc
+      obtain ⟨s', nd, e, hto, hnd, hex⟩ := pendFold_gen key pt g rest s acc
       exact ⟨s', nd, e, hto, fun x hx => ⟨List.mem_cons_of_mem _ (hnd x hx).1, (hnd x hx).2⟩,
         fun hall => hex (fun t' ht' => hall t' (List.mem_cons_of_mem _ ht'))⟩
     · simp only [h1, Bool.false_eq_true, ↓reduceIte]
-      have hex0 : ∀ {P : Prop}, (∀ t' ∈ t :: rest, t'.ref.finishTimestamp.isSome = true) → P :=
+      have hex0 : ∀ {P : Prop}, (∀ t' ∈ t :: rest, (g t').finishTimestamp.isSome = true) → P :=
         fun hall => absurd (hall t List.mem_cons_self) h1
-      by_cases h2 : t.ref.runningTimestamp.isSome = true
+      by_cases h2 : (g t).runningTimestamp.isSome = true
       · simp only [h2, ↓reduceIte]
-        obtain ⟨s', nd, e, hto, hnd, _⟩ := pendFold_gen key pt rest s acc
+        obtain ⟨s', nd, e, hto, hnd, _⟩ := pendFold_gen key pt g rest s acc
         exact ⟨s', nd, e, hto, fun x hx => ⟨List.mem_cons_of_mem _ (hnd x hx).1, (hnd x hx).2⟩, fun hall => hex0 hall⟩
       · simp only [h2, Bool.false_eq_true, ↓reduceIte]
-        by_cases h3 : t.ref.creationTimestamp.getD zeroTime + pt > s.clock
+        by_cases h3 : (g t).creationTimestamp.getD zeroTime + pt > s.clock
         · simp only [h3, ↓reduceIte]
-          obtain ⟨s', nd, e, hto, hnd, _⟩ := pendFold_gen key pt rest (enqueueAfter s key _) acc
+          obtain ⟨s', nd, e, hto, hnd, _⟩ := pendFold_gen key pt g rest (enqueueAfter s key _) acc
           exact ⟨s', nd, e, (enqueueAfter_timersOnly s key _).trans hto,
             fun x hx => ⟨List.mem_cons_of_mem _ (hnd x hx).1, (hnd x hx).2⟩, fun hall => hex0 hall⟩
         · simp only [h3, ↓reduceIte]
           by_cases h4 : t.deletionTimestamp.isSome = true
           · simp only [h4, ↓reduceIte]
-            obtain ⟨s', nd, e, hto, hnd, _⟩ := pendFold_gen key pt rest s acc
+            obtain ⟨s', nd, e, hto, hnd, _⟩ := pendFold_gen key pt g rest s acc
             exact ⟨s', nd, e, hto, fun x hx => ⟨List.mem_cons_of_mem _ (hnd x hx).1, (hnd x hx).2⟩, fun hall => hex0 hall⟩
           · simp only [h4, Bool.false_eq_true, ↓reduceIte]
-            obtain ⟨s', nd, e, hto, hnd, _⟩ := pendFold_gen key pt rest s (acc ++ [t])
+            obtain ⟨s', nd, e, hto, hnd, _⟩ := pendFold_gen key pt g rest s (acc ++ [t])
             refine ⟨s', t :: nd, by rw [e]; simp, hto, ?_, fun hall => hex0 hall⟩
             intro x hx
             rcases List.mem_cons.mp hx with rfl | hx
@@ -208,7 +208,8 @@ theorem markDeleted_names (rj : Job) (names : List String) (f : TaskRef → Task
 /-- `handlePendingTasks`, no fault pending, no listed task being deleted: some unfinished listed tasks are
 gracefully deleted -/
 theorem handlePending_kill (s : Sys) (jo : JobObj) (rj : Job) (tasks : List Task) (hnf : NoFault s)
-    (hnd : (podNames s.pods).Nodup) (hdts : ∀ t ∈ tasks, t.deletionTimestamp = none) :
+    (hnd : (podNames s.pods).Nodup) (hdts : ∀ t ∈ tasks, t.deletionTimestamp = none)
+    (hT : TasksFn tasks) (now : Time) (ex : List TaskRef) (hrj : rj.status.tasks = generateTaskRefs now ex tasks) :
     ∃ s' rj' N, handlePendingTasks s jo rj tasks = (s', some rj') ∧ MarkedT (jobKey jo) s s' N ∧
       (∀ n, n ∈ N → ∃ t ∈ tasks, t.name = n ∧ isTaskFinished t = false) ∧ SameSpec rj rj' ∧
       rj'.status.tasks.map (·.finishTimestamp) = rj.status.tasks.map (·.finishTimestamp) ∧ rj'.status.startTime = rj.status.startTime ∧
@@ -218,6 +219,11 @@ theorem handlePending_kill (s : Sys) (jo : JobObj) (rj : Job) (tasks : List Task
       rj'.status.tasks.map (·.finishTimestamp) = rj.status.tasks.map (·.finishTimestamp) ∧ rj'.status.startTime = rj.status.startTime ∧
       ((∀ t ∈ tasks, isTaskFinished t = true) → s' = s ∧ rj' = rj) :=
     ⟨s, rj, [], rfl, MarkedT.refl _ s, (fun n h => by cases h), SameSpec.refl rj, rfl, rfl, fun _ => ⟨rfl, rfl⟩⟩
+  have hdom : ∀ t ∈ tasks, t.ref.finishTimestamp.isSome = true → (pendRef rj t).finishTimestamp.isSome = true :=
+    fun t ht => by
+      have := (getTaskRef_dom (lookupRef ex t.name) t).1
+      rw [← pendRef_refreshed hT rj now ex hrj t ht] at this
+      exact this
   unfold handlePendingTasks
   cases hp : getPendingTimeout rj s.cfg with
   | none => exact hquiet
@@ -226,7 +232,7 @@ theorem handlePending_kill (s : Sys) (jo : JobObj) (rj : Job) (tasks : List Task
     by_cases h0 : pt ≤ 0
     · rw [if_pos h0]; exact hquiet
     · rw [if_neg h0]
-      obtain ⟨s1, nd, e, hto, hndm, hex⟩ := pendFold_gen (jobKey jo) pt tasks s []
+      obtain ⟨s1, nd, e, hto, hndm, hex⟩ := pendFold_gen (jobKey jo) pt (pendRef rj) tasks s []
       rw [e]
       simp only [List.nil_append]
       have hst := hto.static
@@ -234,7 +240,7 @@ theorem handlePending_kill (s : Sys) (jo : JobObj) (rj : Job) (tasks : List Task
       · simp only [hempty, ↓reduceIte]
         refine ⟨s1, rj, [], rfl, MarkedT.of_timers hto, (fun n h => by cases h), SameSpec.refl rj, rfl, rfl, ?_⟩
         intro hall
-        exact ⟨(hex hall).1, rfl⟩
+        exact ⟨(hex (fun t ht => hdom t ht (hall t ht))).1, rfl⟩
       · simp only [hempty, Bool.false_eq_true, ↓reduceIte]
         have hnf1 : NoFault s1 := ⟨by rw [hst.2.2.2.2.2.2.2.2.2.2.1]; exact hnf.1, by rw [hst.2.2.2.2.2.2.2.2.2.2.2.1]; exact hnf.2⟩
         have hnd1 : (podNames s1.pods).Nodup := by rw [hst.2.2.2.1]; exact hnd
@@ -245,10 +251,16 @@ theorem handlePending_kill (s : Sys) (jo : JobObj) (rj : Job) (tasks : List Task
         · intro n hn
           rw [hN] at hn
           obtain ⟨t, ht, rfl⟩ := List.mem_map.mp hn
-          exact ⟨t, (hndm t ht).1, rfl, (hndm t ht).2⟩
+          refine ⟨t, (hndm t ht).1, rfl, ?_⟩
+          unfold isTaskFinished
+          cases hfin : t.ref.finishTimestamp.isSome with
+          | false => rfl
+          | true =>
+            have := hdom t (hndm t ht).1 hfin
+            rw [(hndm t ht).2] at this; cases this
         · intro hall
           exfalso
-          have := (hex hall).2
+          have := (hex (fun t ht => hdom t ht (hall t ht))).2
           rw [this] at hempty
           exact hempty rfl
 
